@@ -949,6 +949,7 @@ func runC02(ctx *core.Ctx) {
 	}
 	runC02MergeRepeat(ctx)
 	runC02StageRepeat(ctx)
+	runC02ExtendsX(ctx)
 	for i := 0; i < ctx.Pick(6000, 100000); i++ {
 		ctx.Count("merge-random")
 		ctx.Add("c02.merge", c02MergeArgs{Base: core.EncodeVal(c02TopMap(ctx)), Over: core.EncodeVal(c02TopMap(ctx))})
